@@ -238,11 +238,11 @@ def run(repo, rep):
     check_wire(lx, rep, prefix='C10', only=('MaximumLengthSubItem',), rule_map={'L1': 'X7', 'L2': 'X7', 'L3': 'X7', 'L5': 'X7', 'L6': 'X7'})
 
     sp_, sn_ = limit_setter_problems(repo)
-    rep.rule('C10.X9', 'the limit in force is the limit that was set: when ``max_pdu_length`` of an association is a property with a '
+    rep.rule('C10.X10', 'the limit in force is the limit that was set: when ``max_pdu_length`` of an association is a property with a '
              'setter, the setter (evaluated by constant propagation, peval.py) stores 0 and every value from 7 on -- the smallest '
              'P-DATA-TF that carries a byte of payload: item length 4 + context id 1 + control header 1 + 1 -- unchanged and refuses none', 1)
     rep.notes['limit_setters'] = sn_
-    rep.check(not sp_, 'C10.X9', 'asceprovider:Association.max_pdu_length:setter', repo.module('asceprovider').relpath,
+    rep.check(not sp_, 'C10.X10', 'asceprovider:Association.max_pdu_length:setter', repo.module('asceprovider').relpath,
               '%d setter(s) of max_pdu_length, each stores the legal values as given' % sn_, '; '.join(sp_))
 
     rep.rule('C10.X8', 'a P-DATA-TF that is not built from a fragment of the fragmenters (a whole message sent in one PDV) is built only '
